@@ -21,7 +21,7 @@
      state where `inv` is false.  These paths are the scripts of the harness scenarios.      *)
 From Coq Require Import List Bool PArith.
 From KV.Wait Require Import Ir GenWait Model Explore Systems WaitLemmas Fixed.
-From KV.Wait Require Import ProofsRead ProofsWrite ProofsAccept ProofsMulti WaitProofs ProofsExamples.
+From KV.Wait Require Import ProofsRead ProofsWrite ProofsAccept ProofsMulti ProofsFixed WaitProofs ProofsExamples.
 Import ListNotations.
 
 (* The real theorem behind every `= true` below: whatever `explore` returns contains every
@@ -257,6 +257,25 @@ Theorem c13_repairs_checked :
      fixed_n_inv (sys_n (fixed_skel FixAll) Reader 3 async) st = true).
 Proof. exact fixed_all. Qed.
 Print Assumptions c13_repairs_checked.
+
+(* With the further repair `all2` (on `case <-c` re-read the stored deadline and re-arm unless it
+   has passed) the STRONG reading of "never before the deadline" holds for Read and Write: a
+   timeout is returned only when the deadline stored at that moment has passed - thread-modular
+   (any number of callers), for one caller, and for two callers parked under a deadline that is
+   then extended (the early timeout of c13_deadline_extend_multi_refuted is gone); everything
+   of c13_repairs_checked still holds. *)
+Theorem c13_repairs_strong_checked :
+  forall (async : bool) (st : state),
+    (forall c, c <> Accepter -> sreach (sys_tm (fixed_skel FixAll2) c async) st ->
+               strong_tm_inv (sys_tm (fixed_skel FixAll2) c async) st = true) /\
+    (forall c, c <> Accepter -> sreach (sys_1 (fixed_skel FixAll2) c async) st ->
+               strong_one_inv c (sys_1 (fixed_skel FixAll2) c async) st = true) /\
+    (forall c, c <> Accepter -> sreach (sys_extend_n (fixed_skel FixAll2) c 2 async) st ->
+               strong_extend_inv (sys_extend_n (fixed_skel FixAll2) c 2 async) st = true) /\
+    (sreach (sys_n (fixed_skel FixAll2) Reader 2 async) st ->
+     fixed_n_inv (sys_n (fixed_skel FixAll2) Reader 2 async) st = true).
+Proof. exact fixed_all2. Qed.
+Print Assumptions c13_repairs_strong_checked.
 
 (* ------------------------------------------------------------------------------------------
    non-vacuity *)
